@@ -427,22 +427,30 @@ def run_stage(ctx, prefixes):
     p = vlib.run_harness(binary, ["-random", str(nrandom), "-seed", str(ctx.seed), "-len", str(rlen), "-out", rt])
     ctx.stage("random-programs", out=p.stdout.strip())
     traces.append(rt)
-    # one TLC run per batch of traces (JVM start and JSON parsing are paid once per batch)
-    batch, size, k = [], 0, 0
-    for t in traces + [None]:
-        if t is not None and os.path.getsize(t) > 0:
-            count_cases(ctx, t)
-            batch.append(t)
-            size += os.path.getsize(t)
-        if batch and (t is None or size > 250e6):
-            allp = os.path.join(ctx.scratch, "trace-all-%d.ndjson" % k)
-            with open(allp, "w") as out:
-                for b in batch:
-                    with open(b) as f:
-                        for line in f:
-                            out.write(line)
-            validate(ctx, allp, prefixes, "batch%d" % k)
-            batch, size, k = [], 0, k + 1
+    # TLC validates the traces in batches cut at scenario boundaries (the whole batch is one TLA+ value in memory)
+    limit = 60e6 if ctx.quick else 90e6
+    k, size, out = 0, 0, None
+
+    def close():
+        nonlocal out, k, size
+        if out is not None:
+            out.close()
+            validate(ctx, out.name, prefixes, "batch%d" % k)
+            os.remove(out.name)
+            out, k, size = None, k + 1, 0
+    for t in traces:
+        if os.path.getsize(t) == 0:
+            continue
+        count_cases(ctx, t)
+        with open(t) as f:
+            for line in f:
+                if line.startswith('{"cfg"') and size > limit:     # a Scenario line (keys are sorted: cfg comes first)
+                    close()
+                if out is None:
+                    out = open(os.path.join(ctx.scratch, "trace-batch-%d.ndjson" % k), "w")
+                out.write(line)
+                size += len(line)
+    close()
     ctx.cov["exhaustive"] = False
 
 
